@@ -1610,7 +1610,14 @@ func (g *vGen) cfgLine() string {
 		g.ums = ums
 		g.scenarioRefreshRace()
 	}
-	if (g.profile == "growth" || g.profile == "load") && r.Intn(2) == 0 && verifHookInstalled && cfg == "given" {
+	if (g.profile == "growth" || g.profile == "load" || g.profile == "refresh") && g.script == nil && r.Intn(5) == 0 && cfg == "given" {
+		// calls in flight across a refresh complete after the swap; then the pool is loaded up to the watermark
+		min, max, wm, rr, fb = 1, 2, 3, 0, 0
+		uc, ums = 1, 1
+		g.ums = ums
+		g.scenarioLoadAfterRefresh()
+	}
+	if (g.profile == "growth" || g.profile == "load") && g.script == nil && r.Intn(2) == 0 && verifHookInstalled && cfg == "given" {
 		min, max, wm, rr = 1, 2+r.Intn(2), 1+r.Intn(2), 0
 		if r.Intn(6) == 0 {
 			max = 1
@@ -1621,6 +1628,63 @@ func (g *vGen) cfgLine() string {
 	g.rrOn = rr == 1
 	g.keys = []string{"k1", "k2", "k3", "k4"}[:1+r.Intn(4)]
 	return fmt.Sprintf("pool cfg min=%d max=%d wm=%d fb=%d rr=%d uc=%d ums=%d cfg=%s", min, max, wm, fb, rr, uc, ums, cfg)
+}
+
+// scenarioLoadAfterRefresh: two calls without a deadline are in flight on the only channel while a third one runs past
+// its deadline and makes the detector refresh the channel; the replacement takes over; the two calls complete; then
+// calls arrive one by one until the watermark (3) is reached and beyond: the pool may grow only when three calls are
+// really in flight.
+func (g *vGen) scenarioLoadAfterRefresh() {
+	h := g.h
+	add := func(f func() string) { g.script = append(g.script, f) }
+	cur := func() int { return len(h.cc.pubs) - 1 }
+	call := func() int { g.nextCall++; return g.nextCall }
+	plain := func(id *int, dl string) func() string {
+		return func() string {
+			if cur() < 0 {
+				return ""
+			}
+			*id = call()
+			d := dl
+			if d == "now" {
+				d = strconv.FormatInt(atomic.LoadInt64(&verifClock), 10)
+			}
+			return fmt.Sprintf("pool pick call=%d picker=%d m=plain ctx=gcp dl=%s req=/", *id, cur(), d)
+		}
+	}
+	done := func(id *int, err string) func() string {
+		return func() string {
+			if _, ok := h.calls[*id]; !ok {
+				return ""
+			}
+			return fmt.Sprintf("pool done call=%d err=%s reply=/", *id, err)
+		}
+	}
+	var a, b, c int
+	add(func() string { return "pool ccs addrs=1" })
+	add(func() string { return "pool scs sc=0 st=READY" })
+	add(plain(&a, "none"))
+	add(plain(&b, "none"))
+	add(plain(&c, "now"))
+	add(func() string { return fmt.Sprintf("pool adv ns=%d", int64(g.ums)*1000000+1) })
+	add(done(&c, "declient"))
+	add(func() string {
+		for sc := range h.gb.refreshingScRefs {
+			return fmt.Sprintf("pool scs sc=%d st=READY", sc.(*vSubConn).id)
+		}
+		return ""
+	})
+	add(done(&a, "other"))
+	add(done(&b, "other"))
+	ids := make([]int, 5)
+	for i := range ids {
+		add(plain(&ids[i], "none"))
+	}
+	for i := range ids {
+		if i%2 == 0 {
+			add(done(&ids[i], "other"))
+		}
+	}
 }
 
 // scenarioRefreshRace: several calls on one channel run past their deadlines; two of them complete at the same
